@@ -83,7 +83,7 @@ impl Property for C17Prop {
             let v = tape.below(CATALOGUE[y].values.len());
             return Some(json!({"kind": "call", "program": matrix::unary_program(CATALOGUE[x].ty, UNARY[t]), "args": [CATALOGUE[y].values[v]], "arity": tape.weighted(&[6, 1, 1])}));
         }
-        let program = case::generate(tape, Profile::GENERAL);
+        let program = case::generate(tape, Profile::GENERAL.with_free_dispatch());
         let hide = match tape.below(3) {
             0 => Hide::None,
             1 => Hide::All,
